@@ -16,7 +16,7 @@ Not decided: the linear step budget as a number, heap peak as a number.
 from ..context import Context
 from ..report import Report
 from ..facts import Facts, Matcher, ANY, is_const, const_val, describe, describe_fact
-from ..rules import stores_to_field, rets, guarded_site
+from ..rules import stores_to_field, rets, guarded_site, blocks_reachable_from
 from ..callgraph import CallGraph
 from ..loops import classify
 from ..lin import linform, Lin
@@ -30,8 +30,6 @@ MiB = 1024 * 1024
 EXCEPTIONS = {
     "increment_for_code": "walks from a leaf of the -lh1- adaptive tree to the root through parent links; terminates because the root (index 0) is an ancestor of every node "
                           "(tree-shape invariant A-lh1-tree, maintained by init_tree/reconstruct_tree; not verified here)",
-    "fill_offset_range": "i counts up from 0 and the loop stops at the first i with a bit outside 'mask'; mask is an 8-bit value (support: every caller passes a value "
-                         "zero-extended from uint8_t), so at most 256 iterations",
     "build_tree": "code_len grows by one per iteration and add_codes_with_length reports work left only while some uint8_t code length exceeds code_len (support rule S-build), "
                   "so at most 255 iterations",
     "lha_decoder_read": "fill loop: an iteration either copies at least one byte towards the clamped request (filled < limit on the back edge), or refills the buffer from the decoder and "
@@ -51,6 +49,20 @@ IV32_LISTED = {
                          "the raw data to exactly that before calling); assumption A-hdr32",
     "skip_sfx": "bound = stream->leadin_len, which never exceeds LEADIN_BUFFER_LEN = 24 (inductive invariant leadin_len in [0,24] proved by C08 R1)",
 }
+
+
+def exception_shape(fn, F, li):
+    """a listed exception covers a loop only while the loop still has the shape its reason speaks of (the support rules check the rest)"""
+    M = Matcher(fn)
+    exits = [f for (b, s) in li.lp["exits"] for f in F.edge_facts(b, s)]
+    if fn.cname == "build_tree":
+        # "... add_codes_with_length reports work left": the loop is left when it reports none
+        return any(f[0] == "eq" and is_const(f[2]) and const_val(f[2]) == 0 and
+                   M.match(("call", "add_codes_with_length", [ANY, ANY, ANY, ANY]), f[1], {}) is not None for f in exits)
+    if fn.cname == "increment_for_code":
+        # "... walks through parent links to the root": left when the node index is 0, and the index is reloaded from a parent field on the way round
+        return any(f[0] == "eq" and is_const(f[2]) and const_val(f[2]) == 0 for f in exits)
+    return True
 
 
 def run(tier, seed):
@@ -95,7 +107,7 @@ def run(tier, seed):
                     counts["A*"] = counts.get("A*", 0) + 1
                     rep.assumed(rid, "%s loop at line %s: counted, %d-bit counter against a %d-bit bound (%s)" % (fn.cname, li.line, li.narrow[0], li.narrow[1], li.narrow[2]),
                                 "A-iv32:%s" % fn.cname, IV32_LISTED[fn.cname], where)
-                elif fn.cname in EXCEPTIONS and len(unclassified) == 1:
+                elif fn.cname in EXCEPTIONS and len(unclassified) == 1 and exception_shape(fn, F, li):
                     counts["E"] = counts.get("E", 0) + 1
                     rep.assumed(rid, "%s loop at line %s" % (fn.cname, li.line), "E-%s" % fn.cname, EXCEPTIONS[fn.cname], where)
                 else:
@@ -103,6 +115,7 @@ def run(tier, seed):
                     rep.violation(rid, "%s: loop at line %s has no termination witness" % (fn.cname, li.line), where,
                                   ("the %d-bit counter is compared with the %d-bit bound %s, which is not known to fit %d bits: the counter would wrap before reaching it; " % (
                                       li.narrow[0], li.narrow[1], li.narrow[2], li.narrow[0]) if li.narrow else "") +
+                                  ("the loop continues under '%s', which can never fail if the bound is an extreme value of the counter's type (the counter wraps round instead): the bound is not known to leave room; " % li.wrap if li.wrap else "") +
                                   "no induction variable with a strict step and bound, no read-like call whose exhausted outcome leaves the loop, "
                                   "no terminated scan or list walk; exit conditions: %s; back-edge facts: %s" % (
                                       exits, [[describe_fact(fn, x) for x in F.on_edge(l, li.header)][:6] for l in li.lp["latches"]]),
@@ -183,28 +196,22 @@ def run(tier, seed):
                 ok = latch_ok and exit_ok
             rep.check(rid, ok, "S-fill: the fill loop repeats only with filled < limit and a non-empty buffer, and leaves when the decoder delivers nothing", dr.file, None,
                       function="lha_decoder_read", obj="S-fill")
-        fo = mod.fn("fill_offset_range")
-        if fo:
-            ok = True
-            n = 0
-            for f in mod.defined():
-                M = Matcher(f)
-                for c in f.calls("fill_offset_range"):
-                    n += 1
-                    d = f.defn(c.ops[2])
-                    w = None
-                    while d is not None and not d.is_param and d.op in ("zext",):
-                        inner = f.defn(d.ops[0])
-                        w = mod.int_bits(inner.ty) if inner is not None else None
-                        break
-                    if w != 8:
-                        ok = False
-            rep.check(rid, ok and n >= 1, "S-mask: every caller of fill_offset_range passes a mask zero-extended from 8 bits", fo.file, None, function="fill_offset_range", obj="S-mask")
         pu = mod.fn("prompt_user")
         if pu:
             infos = classify(pu, ctx.facts(pu), cg)
             rep.check(rid, len(infos) == 1 and infos[0].cls == "B", "S-prompt: prompt_user's loop is input-driven on getchar (exit(-1) at end of input)", pu.file, None,
                       function="prompt_user", obj="S-prompt")
+            # the caller's loop asks again after an unrecognised answer: that ends only because an answer costs input and the end of the input ends
+            # the process.  So: from every edge on which getchar() < 0 holds, no return of prompt_user is reachable.
+            Mp, Fp = Matcher(pu), ctx.facts(pu)
+            gcs = [c for c in pu.insts() if c.op == "call" and mod.callee_cname(c) in ("getchar", "getc", "fgetc")]
+            eof_edges = [(b.id, s_) for b in pu.blocks for s_ in b.succs
+                         if any(Mp.find_fact((pr, ("call", nm, args), k), Fp.edge_facts(b.id, s_))[0] is not None
+                                for pr, k in (("slt", 0), ("eq", -1), ("sle", -1)) for nm, args in (("getchar", []), ("getc", [ANY]), ("fgetc", [ANY])))]
+            bad = [e for e in eof_edges if any(pu.blocks[x].term.op == "ret" for x in blocks_reachable_from(pu, [e[1]]))]
+            rep.check(rid, bool(gcs) and bool(eof_edges) and not bad, "S-prompt-eof: prompt_user never returns once getchar() reported the end of the input", pu.file,
+                      None if not bad else "a return is reachable from the edge %s -> %s taken at end of input: the caller's re-prompt loop then spins on an exhausted stdin" % bad[0],
+                      function="prompt_user", obj="S-prompt-eof")
 
         # S-consume: the primitive behind every derived class-B witness. read_bits(reader, n) hands on what peek_bits(reader, n) gave and,
         # when that is not the failure value, takes n off reader->bits (so n >= 1 bits of the finite input are gone for good).
